@@ -180,6 +180,11 @@ Next ==
                            THEN {<<"fuzz", "range">>} ELSE {})
                      \cup (IF h.err = "" /\ ~HasExc(r) THEN RowViol(RowsOf(World, QRemove(Sx, e), e, B, h.S), r.rows) ELSE {})
                      \cup (IF r.ty = E_END /\ ~C08_Counters(L) THEN {<<"inv", "C08_Counters">>} ELSE {})
+                     \cup (IF r.ty = E_END /\ ~C05_NoPrematureEnd(World, L) THEN {<<"inv", "C05_NoPrematureEnd">>} ELSE {})
+                     \cup (IF r.ty = E_END /\ ~C05_FeasibleAllDone(World, L) THEN {<<"inv", "C05_FeasibleAllDone">>} ELSE {})
+                     \cup (IF C05_ByTimeout(World, L) THEN {}
+                           ELSE IF C05_SchedulerOvershoot(World, L) THEN {<<"inv", "C05_ByTimeout_scheduler_runtime_overshoot">>}
+                           ELSE {<<"inv", "C05_ByTimeout">>})
                      \cup (IF ~C08_CancelCounter(L) THEN {<<"inv", "C08_CancelCounter">>} ELSE {})
                      \cup DrawViol(Sx, r)
                      \cup InvViol(World, L) \cup EdgeViol(Sx, L)
